@@ -91,6 +91,101 @@ def replay_request(client: bytes, k: int):
         i += 1
 
 
+# ================================================================================================================
+# unit-level model tie: the real Http1Server / Http1Client (no HttpLayer) fed with segments vs Model/C02.lean's machine
+def _unit_ctx():
+    from c01 import _ctx
+    return _ctx()
+
+
+def _reader_phase(conn):
+    from h11._readers import ChunkedReader, ContentLengthReader, Http10Reader
+    st = conn.state.__name__
+    if st == "read_headers": return "head"
+    if st == "wait": return "wait"
+    if st == "done": return "closed"
+    if st == "read_body":
+        r = conn.body_reader
+        if isinstance(r, ContentLengthReader): return "cl"
+        if isinstance(r, Http10Reader): return "eof"
+        if isinstance(r, ChunkedReader):
+            if r._reading_trailer: return "ctrail"
+            if r._bytes_to_discard: return "cdisc"
+            return "cdata" if r._bytes_in_chunk > 0 else "csize"
+    return st
+
+
+def unit_req(segs):
+    """bare Http1Server: every completed request is answered at once with `200, Content-Length: 0` (as the model driver does)"""
+    from mitmproxy import http
+    from mitmproxy.proxy import events, commands
+    from mitmproxy.proxy.layers.http import _http1, _events
+    from mitmproxy.proxy.layers.http._base import ReceiveHttp
+    ctx = _unit_ctx()
+    srv = _http1.Http1Server(ctx)
+    list(srv.handle_event(events.Start()))
+    out, body, closed = [], b"", False
+    pending = []
+
+    def pump(gen):
+        nonlocal body, closed
+        for cmd in gen:
+            if isinstance(cmd, ReceiveHttp):
+                ev = cmd.event
+                if isinstance(ev, _events.RequestHeaders): body = b""
+                elif isinstance(ev, _events.RequestData): body += ev.data
+                elif isinstance(ev, _events.RequestEndOfMessage):
+                    out.append("m:" + hx(body)); pending.append(ev.stream_id)
+                elif isinstance(ev, _events.RequestProtocolError) and ev.message.startswith("HTTP/1 protocol error"):
+                    out.append("p")
+            elif isinstance(cmd, commands.SendData) and cmd.data.startswith(b"HTTP/1.1 400 "):
+                out.append("r")
+            elif isinstance(cmd, commands.CloseConnection):
+                closed = True
+    for seg in segs:
+        if closed: break
+        pump(srv.handle_event(events.DataReceived(ctx.client, seg)))
+        while pending and not closed:
+            sid = pending.pop(0)
+            resp = http.Response.make(200, b"")
+            pump(srv.handle_event(_events.ResponseHeaders(sid, resp, True)))
+            pump(srv.handle_event(_events.ResponseEndOfMessage(sid)))
+    return (",".join(out) or "-") + " " + ("closed" if closed else _reader_phase(srv))
+
+
+def unit_resp(method, segs):
+    """bare Http1Client with one outstanding request: up to the first completed / failed response"""
+    from mitmproxy import http
+    from mitmproxy.connection import Server, ConnectionState
+    from mitmproxy.proxy import events, commands
+    from mitmproxy.proxy.layers.http import _http1, _events
+    from mitmproxy.proxy.layers.http._base import ReceiveHttp
+    ctx = _unit_ctx(); ctx.server = Server(address=("origin.example", 80)); ctx.server.state = ConnectionState.OPEN
+    cl = _http1.Http1Client(ctx)
+    list(cl.handle_event(events.Start()))
+    req = http.Request.make("GET", "http://origin.example/"); req.data.method = method
+    list(cl.handle_event(_events.RequestHeaders(1, req, True))); list(cl.handle_event(_events.RequestEndOfMessage(1)))
+    out, body = [], b""
+    for seg in segs:
+        if out: break
+        for cmd in cl.handle_event(events.DataReceived(ctx.server, seg)):
+            if isinstance(cmd, ReceiveHttp):
+                ev = cmd.event
+                if isinstance(ev, _events.ResponseHeaders): body = b""
+                elif isinstance(ev, _events.ResponseData): body += ev.data
+                elif isinstance(ev, _events.ResponseEndOfMessage): out.append("m:" + hx(body))
+                elif isinstance(ev, _events.ResponseProtocolError):
+                    out.append("p" if ev.message.startswith("HTTP/1 protocol error") else "r")
+            if out: break
+    return out[0] if out else "-"
+
+
+def first_terminal(model_reply):
+    items = model_reply.split(" ")[0]
+    if items == "-": return "-"
+    return items.split(",")[0]
+
+
 class Check(PropertyCheck):
     prop = "C02"
     design_ref = "§5 C02"
@@ -119,8 +214,10 @@ class Check(PropertyCheck):
                   "on the client side bytes that arrive while no request is outstanding stay buffered in the model, the real code "
                   "closes the connection (excluded by the causality assumption). The discard of CR LF after chunk data is matched "
                   "byte by byte in the model (h11 matches as many bytes as are there — same result under the drain loop). No "
-                  "compiled-model tie for C02 (has_model=False): the functions the machine uses (extractLines, head parsing, framing "
-                  "decision, the chunk_header regex via the chunkhdr op) are tied in C01. "
+                  "Model tie (driver mv_c02): the machine is run on generated segmentations and compared with the bare real Http1Server "
+                  "(every completed request answered at once, mark_done's keep-alive decision via C01.connectionClose) — messages with "
+                  "bodies, rejections, protocol errors and the reader sub-state at the end — and with the bare Http1Client up to the "
+                  "first completed/failed response; the functions the machine uses are additionally tied in C01. "
                   "Out of scope by design: tunnel payload after CONNECT, request streaming (head forwarded before the body is judged), "
                   "an origin that drops a keep-alive connection without announcing it (races with the next request).")
     technique = "Lean 4 proof (feed_append for the drain loop + generic seg_independent) + schedule-vs-whole oracle on the real layer"
@@ -144,7 +241,7 @@ class Check(PropertyCheck):
                     "harness/common/world.py as the stand-in for proxy/server.py (validated separately against the asyncio server)",
                     "harness/common/refparsers.py for comparing what the peers receive semantically"]
     parallel = False
-    has_model = False
+    has_model = True
 
     def setup(self, tier):
         self.known_selftest()
@@ -193,6 +290,9 @@ class Check(PropertyCheck):
                 c["proxy_replies"] = [{"data_hex": hx(reply), "cuts": [i] if i else list(range(1, len(reply))), "close": False}]
                 yield c
         while True:
+            if rng.chance(0.3):
+                yield from self.unit_cases(rng)
+                continue
             if rng.chance(0.1):
                 # unsolicited bytes behind a complete response, in the same segment vs. in a segment of their own, both
                 # before the next request is sent
@@ -223,7 +323,32 @@ class Check(PropertyCheck):
             if len(unhx(base["client_hex"])) <= 200 and rng.chance(0.15 if tier == "quick" else 0.5):
                 yield X.gen_schedule(rng, base, "bytes")
 
+    def unit_cases(self, rng):
+        """segments for the bare readers, cut from the same grammar (requests without absolute targets / CONNECT: the authority
+        check is a parameter of the model)"""
+        if rng.chance(0.6):
+            n = rng.weighted([(5, 1), (3, 2), (2, 3)])
+            data = b"".join(X.gen_request(rng, "reverse") for _ in range(n))
+            if rng.chance(0.25): data = X.mutate(rng, data)
+            if b"://" in data or b"connect" in data.lower() or not data: return
+            if rng.chance(0.35) and len(data) > 2: data = data[:rng.randrange(1, len(data))]      # stop in the middle of a message
+            cuts = sorted(rng.sample(range(1, len(data)), min(len(data) - 1, rng.pick([0, 1, 3, 8])))) if len(data) > 1 else []
+            if rng.chance(0.1): cuts = list(range(1, len(data)))
+            yield {"op": "unit-req", "segs": [hx(x) for x in X.cut(data, cuts)]}
+        else:
+            data = X.gen_response(rng)
+            if rng.chance(0.3): data = (b"HTTP/1.1 103 Early Hints\r\nLink: </x>\r\n\r\n" if rng.chance(0.5) else b"\r\n") + data
+            if rng.chance(0.25): data = X.mutate(rng, data)
+            if not data: return
+            if rng.chance(0.2) and len(data) > 2: data = data[:rng.randrange(1, len(data))]
+            cuts = sorted(rng.sample(range(1, len(data)), min(len(data) - 1, rng.pick([0, 1, 3, 8])))) if len(data) > 1 else []
+            yield {"op": "unit-resp", "method_hex": hx(rng.pick([b"GET", b"HEAD", b"POST"])), "segs": [hx(x) for x in X.cut(data, cuts)]}
+
     def impl(self, case):
+        if case.get("op") == "unit-req":
+            return {"unit": unit_req([unhx(x) for x in case["segs"]])}
+        if case.get("op") == "unit-resp":
+            return {"unit": unit_resp(unhx(case["method_hex"]), [unhx(x) for x in case["segs"]])}
         case = X.normalize_causality(case)
         whole = X.run(case, whole=True)
         seg = X.run(case)
@@ -231,7 +356,19 @@ class Check(PropertyCheck):
         nseg = len(case.get("ccuts") or []) + sum(len(x) for x in case.get("scuts") or []) + sum(len(pr.get("cuts") or []) for pr in case.get("proxy_replies") or [])
         return {"whole": sw, "seg": ss, "crash": cw + cs, "nseg": nseg}
 
+    def model_lines(self, case):
+        if case.get("op") == "unit-req": return ["req " + " ".join(case["segs"])]
+        if case.get("op") == "unit-resp": return ["resp " + case["method_hex"] + " " + " ".join(case["segs"])]
+        return None
+
+    def model_obs(self, case, replies):
+        return first_terminal(replies[0]) if case["op"] == "unit-resp" else replies[0]
+
+    def impl_view(self, case, obs):
+        return obs["unit"]
+
     def oracle(self, case, obs):
+        if "unit" in obs: return []
         # C02: "every way of splitting those streams into received segments yields the same flows (same requests,
         # responses, bodies and hook sequence) and the peers receive semantically identical messages in the same order."
         d = diff_keys(obs["whole"], obs["seg"])
@@ -321,10 +458,12 @@ class Check(PropertyCheck):
         assert self.known(pos2, obs, fail) is None, "a 400 page for a head that validates is a different failure"
 
     def classify(self, case, obs):
+        if "unit" in obs: return json.dumps(case) if len(case["segs"]) > 1 else None
         if not obs["nseg"]: return None
         return json.dumps([case["mode"], case["client_hex"], case.get("ccuts"), case.get("scuts"), case.get("sched"), case.get("proxy_replies")])
 
     def branches(self, case, obs):
+        if "unit" in obs: return [case["op"] + ":" + obs["unit"].split(" ")[-1][:8]]
         out = ["mode:" + case["mode"], "flows:%d" % len(obs["seg"]["flows"])]
         out.append("segments:" + ("0" if obs["nseg"] == 0 else "1-3" if obs["nseg"] <= 3 else "4-20" if obs["nseg"] <= 20 else ">20"))
         if case.get("sched"): out.append("interleaved")
